@@ -180,6 +180,11 @@ fn main() {
                     let (sx, mem) = (e.mem_image)(&mut r, a.size);
                     writeln!(out, "(smem {} @{} {} {} {})\t(ok holds)", hex(&sb), e.name, cur, sx, mem).unwrap();
                     n += 1;
+                    // with the heap: the data behind the headers of collections is part of what is prescribed
+                    let (sx, base, obj, segs) = (e.mem_heap)(&mut r, a.size.min(8));
+                    let segs: Vec<String> = segs.iter().map(|(a, h)| format!("({} {})", a, h)).collect();
+                    writeln!(out, "(smemh {} @{} {} {} {} {} ({}))\t(ok holds)", hex(&sb), e.name, cur, sx, base, if obj.is_empty() { "-".to_string() } else { obj }, segs.join(" ")).unwrap();
+                    n += 1;
                 }
             }
             writeln!(out, "#stat smem-cases {}", n).unwrap();
